@@ -21,7 +21,7 @@ KINDS = ["vec", "dense", "hash", "btree", "defvec", "null", "f_vec", "f_dense", 
          # plain-data components (no destructor: needs_drop::<T>() is false)
          "p_vec", "p_dense", "p_hash", "p_btree", "p_defvec", "pf_hash"]
 BASIC_KINDS = ["vec", "dense", "hash", "btree", "defvec", "null", "f_vec", "d_dense", "p_hash", "p_dense", "p_vec"]
-REGS = ["register", "register_with", "setup_read", "setup_write", "dispatcher", "register_twice"]
+REGS = ["register", "register_with", "setup_read", "setup_write", "dispatcher", "register_twice", "preinsert"]
 
 
 def conv_op(op, rot):
@@ -465,6 +465,9 @@ def kind_churn_scripts(seed, per_kind, n_ops, tid0, kinds=None, far=False):
         for j in range(per_kind):
             rng = random.Random((seed * 7919 + ki * 104729 + j * 31) & 0xFFFFFFFF)
             pool = [0, 1, 2, 3, 4, 5, 6, 7] if not (far and j % 2) else [0, 1, 63, 64, 65, 127, 128, 4095, 4096]
+            if j % 3 == 2 and ki % 2 == 0:
+                # every member beyond the first group of the top layer (64^3 indices): nothing below 262144
+                pool = [262144, 262145, 262207, 266240, 270000, 300000]
             keep = sorted(rng.sample(pool, rng.randint(3, 6)))
             if j % 5 == 0:
                 keep = list(range(rng.randint(3, 6)))        # no gaps: every index up to the highest holds an entity
